@@ -406,33 +406,24 @@ Proof.
   destruct ((so w <=? i) && (i <? so w + sn w)); [apply option_map_lower_idem|reflexivity].
 Qed.
 
-(* ---- C09 refuted: template regions inside comments, doctype, end tags, svg, math ---------------------------------- *)
+(* ---- C09: template regions inside comments, doctype, end tags, svg, math (fixed in /repo 886e7b1) -------------------- *)
 Definition go_tmpl : cfg := mkCfg [123; 123] [125; 125].
 
-(* the first token of d has type ty, contains the start of the region [p,q) and reports HasTemplate() = false *)
-Definition region_unreported (c : cfg) (ty : Z) (d : list Z) (p q : Z) : Prop :=
-  is_region c d p q /\ exists v l', next c (new_lexer d) = Ok (ty, Some v, l') /\ so v <= p < so v + sn v /\ lhas l' = false.
-
-(* the first token of d has type ty and ends strictly inside the region [p,q) *)
-Definition region_split (c : cfg) (ty : Z) (d : list Z) (p q : Z) : Prop :=
-  is_region c d p q /\ exists v l', next c (new_lexer d) = Ok (ty, Some v, l') /\ so v <= p /\ p < so v + sn v < q.
+(* the first token of d has type ty, contains the whole region [p,q) and reports HasTemplate() = true *)
+Definition region_inside (c : cfg) (ty : Z) (d : list Z) (p q : Z) : Prop :=
+  is_region c d p q /\ exists v l', next c (new_lexer d) = Ok (ty, Some v, l') /\ so v <= p /\ q <= so v + sn v /\ lhas l' = true.
 
 Ltac region_witness := split; [split; [lia|split; [discriminate|split; vm_compute; reflexivity]]|
                                eexists; eexists; split; [vm_compute; reflexivity|cbn [so sn]; repeat split; lia || reflexivity]].
 
-Lemma html_template_elsewhere_refuted_proof :
-  (* <!-- {{x}} -->             one Comment, HasTemplate() = false *)
-  region_unreported go_tmpl CommentT [60;33;45;45;32;123;123;120;125;125;32;45;45;62] 5 10 /\
-  (* <!-- {{ "-->" }} -->a      the comment ends inside the region *)
-  region_split go_tmpl CommentT [60;33;45;45;32;123;123;32;34;45;45;62;34;32;125;125;32;45;45;62;97] 5 16 /\
-  (* <!doctype {{">"}}>         the doctype ends inside the region *)
-  region_split go_tmpl DoctypeT [60;33;100;111;99;116;121;112;101;32;123;123;34;62;34;125;125;62] 10 17 /\
-  (* </a{{x}}>                  EndTag, HasTemplate() = false *)
-  region_unreported go_tmpl EndTagT [60;47;97;123;123;120;125;125;62] 3 8 /\
-  (* <svg>{{"</svg>"}}</svg>    SVG, HasTemplate() = false *)
-  region_unreported go_tmpl SvgT [60;115;118;103;62;123;123;34;60;47;115;118;103;62;34;125;125;60;47;115;118;103;62] 5 17 /\
-  (* <math>{{x}}</math>         Math, HasTemplate() = false *)
-  region_unreported go_tmpl MathT [60;109;97;116;104;62;123;123;120;125;125;60;47;109;97;116;104;62] 6 11.
+(* the witnesses of the former findings c09-template:comment / doctype / endtag / svg / math *)
+Example html_template_elsewhere_fixed :
+  region_inside go_tmpl CommentT [60;33;45;45;32;123;123;120;125;125;32;45;45;62] 5 10 /\
+  region_inside go_tmpl CommentT [60;33;45;45;32;123;123;32;34;45;45;62;34;32;125;125;32;45;45;62;97] 5 16 /\
+  region_inside go_tmpl DoctypeT [60;33;100;111;99;116;121;112;101;32;123;123;34;62;34;125;125;62] 10 17 /\
+  region_inside go_tmpl EndTagT [60;47;97;123;123;120;125;125;62] 3 8 /\
+  region_inside go_tmpl SvgT [60;115;118;103;62;123;123;34;60;47;115;118;103;62;34;125;125;60;47;115;118;103;62] 5 17 /\
+  region_inside go_tmpl MathT [60;109;97;116;104;62;123;123;120;125;125;60;47;109;97;116;104;62] 6 11.
 Proof.
   split; [region_witness|]. split; [region_witness|]. split; [region_witness|].
   split; [region_witness|]. split; [region_witness|region_witness].
